@@ -5,7 +5,9 @@ check("C19", "model_checking",
       "and the size arithmetic. The REAL generator is run through hook H6 (seeded entry point) as `penne fuzz tokens --kb N` drives "
       "it, sizes 1..64 KB (200 runs quick, 5000 thorough): output must be valid UTF-8, >= N KiB, and free of lexical errors for both "
       "real lexers; line-aligned windows of both token streams are validated by TLC (Trace_Lex, incl. the claim that the rule finds "
-      "no invalid lexeme); adjacencies of the real output must be ones the model can produce (else MODEL-DRIFT).",
+      "no invalid lexeme); adjacencies of the real output must be ones the model can produce (else MODEL-DRIFT). Now 760 / 8000 runs, three quarters of them "
+      "at 1 KB (the END of the output is the largest part of a small one), sizes up to 256 KB / 2 MB, a window at the end of every output, and the real "
+      "`penne fuzz tokens --kb N --out-dir D` binary (12 / 47 runs).",
       "Trusted: TLC, PenneLex.tla, the seeded entry point (same code path, StdRng instead of ThreadRng). The model enumerates spelling "
       "classes by representatives, not every random value; the real generator is sampled (seeds reproduce runs exactly for the "
       "pinned rand version).",
